@@ -331,6 +331,26 @@ def discharge(ob, timeout_ms=10000):
     if ob.status is not None:
         return ob
     t0 = time.time()
+    if z3.is_false(ob.goal):
+        # concretely false on this path: refuted unless the path itself is contradictory
+        s0 = z3.Solver()
+        s0.set("timeout", 2000)
+        for h in ob.hyps:
+            if not z3.is_quantifier(h):
+                s0.add(h)
+        r0 = s0.check()
+        ob.time_s = time.time() - t0
+        ob.backend = "z3-" + z3.get_version_string()
+        if r0 == z3.unsat:
+            ob.status = "proved"
+        else:
+            ob.status = "refuted"
+            try:
+                m = s0.model() if r0 == z3.sat else None
+                ob.model = {str(d): str(m[d]) for d in m.decls() if d.arity() == 0} if m is not None else {}
+            except Exception:
+                ob.model = {}
+        return ob
     s = z3.Solver()
     s.set("timeout", int(timeout_ms))
     for h in ob.hyps:
